@@ -125,3 +125,39 @@ func VerifFailureWithResponses() {
 	}
 	verifReach("completed")
 }
+
+// VerifFailureConcurrentReader: request B is in flight; while the reader goroutine handles B's
+// response, the caller of request A is in the middle of its send and the connection's k-th
+// operation fails (every interleaving within the delay bound): both requests are completed
+// exactly once and the reader returns.
+func VerifFailureConcurrentReader() {
+	conn := &vConn{yield: true}
+	c := vNewClient(conn, 1)
+	h := &vC18{c: c, conn: conn}
+	reg := vReg("t,,1")
+	ctx := context.Background()
+	b, a := vGet(ctx, "b", reg), vGet(ctx, "a", reg)
+	verifAssert(c.trySend(b) == nil, "send B")
+	conn.failAt = conn.ops + verifInt(1, verifParam("K"))
+	readerDone := false
+	go func() {
+		hdr := vAppendDelimited(nil, vWire(&pb.ResponseHeader{CallId: proto.Uint32(1)}, false))
+		body := vAppendDelimited(hdr, vWire(&pb.GetResponse{Result: &pb.Result{}}, false))
+		err := h.c.receive(&vReader{b: vFrame(body, uint32(len(body)))})
+		if _, ok := err.(ServerError); ok {
+			c.fail(err)
+		}
+		readerDone = true
+	}()
+	if err := c.trySend(a); err != nil {
+		returnResult(a, nil, err)
+	}
+	verifQuiesce()
+	vPending, vUnmarshalFails = nil, nil
+	c.Close()
+	verifQuiesce()
+	verifAssert(readerDone, "the reader is not stranded")
+	verifAssert(vResults(b) == 1 && vResults(a) == 1, "both requests are completed exactly once")
+	verifAssert(verifGoroutines() == 0, "no goroutine is left blocked")
+	verifReach("completed")
+}
